@@ -56,18 +56,18 @@ def gen_cli_tree(rng, i):
             else:
                 out.append("query T rowsort\nselect %s_%d\n----\nzzz\n" % (tag, j))
         return out
-    ninc = rng.randint(0, 2)
+    ninc = rng.randint(1, 2) if i % 2 == 0 else rng.randint(0, 2)
     files = []
     main = recs("M", rng.randint(1, 4))
     for a in range(ninc):
         # sometimes a sibling with the same stem and another extension (temp-file names must not collide)
-        name = ("main.inc" if a == 0 else "main.part") if rng.random() < 0.4 else "inc/f%d.slt" % a
+        name = ("main.inc" if a == 0 else "main.part") if (i % 2 == 0 or rng.random() < 0.3) else "inc/f%d.slt" % a
         body = recs("I%d" % a, rng.randint(0, 3))
         text = "\n".join(body) + ("\n" * rng.randint(0, 10) if rng.random() < 0.5 else "")
         if rng.random() < 0.15:
             text = ""
         files.append([name, text])
-        main.insert(rng.randint(0, len(main)), "include %s\n" % name)
+        main.insert(rng.randint(0, len(main) - 1) if i % 2 == 0 else rng.randint(0, len(main)), "include %s\n" % name)
     files.insert(0, ["main.slt", "\n".join(main) + "\n" * rng.randint(0, 9)])
     return {"kind": "clikill", "files": files, "meta": {"src": "cli-kill", "i": i}}
 
